@@ -44,7 +44,10 @@ Definition init_reply_ok (q : wfreq) (known : N) (fs : fsres) (session_bufsize :
   if major <? 7 then is_error_reply r u 71          (* EPROTO *)
   else if 7 <? major then
     (* the server answers with its own major; the client retries with that version *)
-    okhdr && (g "major" =? 7)
+    okhdr && (g "major" =? 7) &&
+    (* ... and nothing is negotiated by this reply: it enables no feature (the negotiation happens in the INIT the
+       client sends next, with major 7) *)
+    (client_enabled b =? 0)
   else
     match fs with
     | FErr (Os n) => is_error_reply r u n
